@@ -62,6 +62,8 @@ def cases(tier, seed):
         for (mr, md, st, k) in sorted(_QUICK_PAT) if tier == 'thorough' else sorted(_QUICK_PAT)[::4]:
             out.append(('pat_%s_T4_mr%d_md%d_%s%d' % (pg, mr, md, st, k), dict(kind='pattern', T=4, mr=mr, md=md, tar=k if st == 'on' else 0,
                                                                               tao=k if st == 'off' else 0, heat=False, start_costs=True, pgrid=pg)))
+    # ramp profiles without ramp_freq are per main time unit: omitting the argument = giving the main time unit explicitly (C19's form machinery)
+    out.append(('default_ramp_freq_is_main_time_unit', dict(kind='forms', which='defaults_plant_ramp_freq')))
     phys = PHYS_THOROUGH if tier == 'thorough' else PHYS_QUICK
     for cid, kw in phys:
         out.append((cid, dict(kind='physics', **kw)))
@@ -205,6 +207,9 @@ def spec(on, T, mr, md, tar, tao):
 # ------------------------------------------------------------------------------------------------ cases
 def run_case(case_id, tier, seed, kind, **kw):
     rec = lpsem.Rec(PROP, case_id)
+    if kind == 'forms':
+        from . import c19
+        return c19.run_forms(rec, seed, **kw)
     if kind == 'pattern':
         return run_pattern(rec, seed, **kw)
     return run_physics(rec, seed, **kw)
@@ -492,6 +497,9 @@ def observe(case, kwargs, env, rq):
     D = lift.Domain(theta=env)
     kw = dict(kwargs)
     kind = kw.pop('kind')
+    if kind == 'forms':
+        from . import c19
+        return c19.observe(case, kwargs, env, rq)
     if kind == 'pattern':
         freq_, unit_, f_ = PATTERN_GRIDS[kw['pgrid']] if kw.get('pgrid') else ('h', 'h', 1)
         dur_ = _dur_fn(f_)
@@ -544,6 +552,9 @@ def judge(case, kwargs, cand, ans):
         return None, ans['error']
     o = ans['obs']
     kind = info.get('kind')
+    if kwargs.get('kind') == 'forms':
+        from . import c19
+        return c19.judge(case, kwargs, cand, ans)
     if kind == 'sound':
         # the rows admitted a pattern outside Spec: real solver must find the pinned pattern feasible
         return (True, 'pattern %s violates runtime/downtime/initial state but is feasible' % o.get('pattern')) if o.get('feasible_with_pattern') \
